@@ -286,8 +286,9 @@ func TestIsolation(t *testing.T) {
 		defer w.targets[0].Close()
 		defer w.targets[1].Close()
 		cfg := vlib.PairConfig{Carrier: carrier, ClientInsecure: true,
-			Channels:  []vlib.ChannelSpec{{Name: "ch0", Target: w.targets[0].URL()}, {Name: "ch1", Target: w.targets[1].URL()}},
-			Listeners: []vlib.ListenerSpec{{Channel: "ch0"}, {Channel: "ch1"}}}
+			Channels: []vlib.ChannelSpec{{Name: "ch0", Target: w.targets[0].URL()}, {Name: "ch1", Target: w.targets[1].URL()}},
+			// "nochan" is a listener for a channel the server does not have: requests for it are refused
+			Listeners: []vlib.ListenerSpec{{Channel: "ch0"}, {Channel: "ch1"}, {Channel: "nochan"}}}
 		if startTLS || strings.Contains(carrier, "tls") || carrier == vlib.CarHTTPS {
 			cfg.ServerCert = &vlib.GetPKI().ServerGood
 		}
@@ -309,7 +310,7 @@ func TestIsolation(t *testing.T) {
 		}()
 		vlib.Tap.Reset()
 
-		maxOpen, sawConcurrentWrite, pauses, closesWhileActive, bursts := 0, false, 0, 0, 0
+		maxOpen, sawConcurrentWrite, pauses, closesWhileActive, bursts, refusals := 0, false, 0, 0, 0, 0
 		fail := func(msg string) {
 			vlib.Rec.Violation(map[string]interface{}{"property": "C02", "carrier": carrier, "starttls": startTLS, "history": w.history, "problem": msg, "log": vlib.Tap.Tail(8)})
 			rt.Fatalf("C02 carrier=%s starttls=%v: %s\nhistory: %v\nlog: %v", carrier, startTLS, msg, w.history, vlib.Tap.Tail(8))
@@ -433,6 +434,24 @@ func TestIsolation(t *testing.T) {
 				}
 				openMany(rt, rapid.IntRange(2, minInt(4, room)).Draw(rt, "k"), "concurrent opens")
 			},
+			"refusedOpen": func(rt *rapid.T) {
+				// somebody asks for a channel the server does not offer while the others are busy: the refusal must
+				// stay that logical connection's own business
+				c, err := w.pair.Dial("nochan")
+				if err != nil {
+					fail("dial listener of the unconfigured channel: " + err.Error())
+				}
+				c.SetDeadline(time.Now().Add(bound))
+				c.Write([]byte("hello?"))
+				buf := make([]byte, 16)
+				n, rerr := c.Read(buf)
+				c.Close()
+				w.logf("refusedOpen -> %d bytes, %v", n, rerr)
+				if n > 0 {
+					fail(fmt.Sprintf("a request for a channel the server does not have returned %d bytes of data", n))
+				}
+				refusals++
+			},
 			"burst": func(rt *rapid.T) {
 				o := openConns()
 				if len(o) < 2 {
@@ -545,6 +564,9 @@ func TestIsolation(t *testing.T) {
 		}
 		if bursts > 0 {
 			labels = append(labels, "burst")
+		}
+		if refusals > 0 {
+			labels = append(labels, "refused-open-among-others")
 		}
 		h := append([]string{"carrier=" + carrier}, w.history...)
 		vlib.Rec.Case(strings.Join(h, ";"), nontrivial, labels, func() interface{} { return h })
